@@ -57,6 +57,7 @@ def walk(obj, label, path, out, seen, into_mesh=True):
         for k, x in obj.items():
             walk(x, label, f"{path}[{k!r}]", out, seen, into_mesh)
     elif isinstance(obj, pf.CellVariable):
+        out.append((label if 'pf.CellVariable' != 'MeshStructure' else 'meshData', path + '.__dict__', 'attrs', obj))   # the SET of attributes: a memo stored on an input object is a modification
         walk(getattr(obj, "_value", None), label, path + "._value", out, seen, into_mesh)
         walk(getattr(obj, "BCs", None), label, path + ".BCs", out, seen, into_mesh)
         walk(getattr(obj, "_BCsTerm", None), label, path + "._BCsTerm", out, seen, into_mesh)
@@ -65,20 +66,24 @@ def walk(obj, label, path, out, seen, into_mesh=True):
         if into_mesh:
             walk(obj.domain, "meshData", path + ".domain", out, seen, into_mesh)
     elif isinstance(obj, pf.FaceVariable):
+        out.append((label if 'pf.FaceVariable' != 'MeshStructure' else 'meshData', path + '.__dict__', 'attrs', obj))   # the SET of attributes: a memo stored on an input object is a modification
         for nm in ("_xvalue", "_yvalue", "_zvalue"):
             walk(getattr(obj, nm, None), label, f"{path}.{nm}", out, seen, into_mesh)
         if into_mesh:
             walk(obj.domain, "meshData", path + ".domain", out, seen, into_mesh)
     elif isinstance(obj, BoundaryConditionsBase):
+        out.append((label if 'BoundaryConditionsBase' != 'MeshStructure' else 'meshData', path + '.__dict__', 'attrs', obj))   # the SET of attributes: a memo stored on an input object is a modification
         for side in SIDES:
             walk(getattr(obj, side, None), label, f"{path}.{side}", out, seen, into_mesh)
         if into_mesh:
             walk(obj.domain, "meshData", path + ".domain", out, seen, into_mesh)
     elif isinstance(obj, BoundaryFace):
+        out.append((label if 'BoundaryFace' != 'MeshStructure' else 'meshData', path + '.__dict__', 'attrs', obj))   # the SET of attributes: a memo stored on an input object is a modification
         for nm in ("_a", "_b", "_c"):
             walk(getattr(obj, nm, None), label, f"{path}.{nm}", out, seen, into_mesh)
         out.append((label, path + "._periodic", "flag", (obj, "_periodic")))
     elif isinstance(obj, MeshStructure):
+        out.append((label if 'MeshStructure' != 'MeshStructure' else 'meshData', path + '.__dict__', 'attrs', obj))   # the SET of attributes: a memo stored on an input object is a modification
         for nm in ("dims", "corners", "edges"):
             walk(getattr(obj, nm, None), "meshData", f"{path}.{nm}", out, seen, into_mesh)
         for part in ("cellsize", "cellcenters", "facecenters"):
@@ -88,6 +93,8 @@ def walk(obj, label, path, out, seen, into_mesh=True):
 
 
 def payload(kind, v):
+    if kind == "attrs":
+        return tuple(sorted(vars(v)))
     if kind == "array":
         a = np.asarray(v)
         return (a.shape, str(a.dtype), a.tobytes())
